@@ -644,7 +644,8 @@ func parseResourceContents(contentMap map[string]any) (ResourceContents, error) 
 		}, nil
 	}
 
-	if blob := extractString(contentMap, "blob"); blob != "" {
+	// Likewise a blob may be empty (an empty file).
+	if blob, ok := contentMap["blob"].(string); ok {
 		return BlobResourceContents{
 			URI:      uri,
 			MIMEType: mimeType,
